@@ -82,6 +82,15 @@ def p1_programs():
     for x, y in itertools.permutations(atoms, 2):
         out.append(fn("and", [], [x, y]))
         out.append(fn("or", [], [x, y]))
+    for t in itertools.permutations(atoms, 3):
+        out.append(fn("and", [], list(t)))
+        out.append(fn("or", [], list(t)))
+    for t in itertools.permutations(atoms, 4):
+        if atoms.index(t[0]) < atoms.index(t[1]):
+            out.append(fn("and", [], list(t)))
+            out.append(fn("or", [], list(t)))
+    out.append(fn("and", [], atoms))
+    out.append(fn("or", [], atoms))
     lefts = [A, fn("lower", [], [A]), fn("upper", [], [A]), fn("strip", [], [A]), fn("length", [], [A]), fn("substring", [], [A, T(2)]),
              fn("concat", [], [A, T("-"), B]), fn("add", [], [A, T(1)]), fn("subtract", [], [A, B]), fn("multiply", [], [A, T(2)]),
              fn("divide", [], [A, T(2)]), fn("divide", [], [A, B]), fn("mod", [], [A, T(2)]), fn("int", [], [A]), fn("float", [], [A]),
